@@ -514,7 +514,7 @@ def rule_L(ctx):
               node=res['Qlog'][0].node, key='floor')
 
 
-def rule_V(ctx):
+def rule_V(ctx, rid='C09.V', only=None):
     """C09.V the decoder as a whole: HMM.estimate (with Qlog/Plog and the reconstruction) interpreted on small models and compared
     with the enumeration of all state sequences"""
     import itertools
@@ -687,7 +687,7 @@ def rule_V(ctx):
         return hmm, t
 
     INF = float('inf')
-    for logmode in (False, True):
+    for logmode in ((False, True) if only is None else ()):
         # (a) two epochs of two states: every weak ordering of the four sequence costs (each sequence owns its transition), with
         #     costs all positive (likelihoods < 1) and with negative costs (unnormalised likelihoods > 1)
         names = ['00', '01', '10', '11']
@@ -721,6 +721,7 @@ def rule_V(ctx):
                 ((2, 2), [[50.0, 70.0], [0.0, 0.0]], [{(0, 0): 60.0, (0, 1): 75.0, (1, 0): 45.0, (1, 1): 41.0}], 'tiny likelihoods (1e-18 .. 1e-33) that differ'),
         ):
             decode(sizes, emis, trans, logmode, label, 'zeros and ones')
+    for logmode in (False, True):
         # (d) the same decoder object and the same track used again with another model (stationary flag on): nothing of the first
         #     decoding may survive into the second
         for stat in (False, True):
@@ -730,7 +731,7 @@ def rule_V(ctx):
                 decode((2, 2), [[0.9, 0.1], [0.3, 0.6]], [{(0, 0): 2.0, (0, 1): 2.0, (1, 0): 2.0, (1, 1): 0.1}], logmode,
                        'second use of the same decoder and track with other tables (stationarity=%s)' % stat, 'reuse', reuse=first, stationary=stat)
     # (e) the log switch given as another falsy / truthy value than the bool (0, 1, numpy.bool_ - the result of a numpy test)
-    for sw_label, sw, logmode in (('0', 0, False), ('1', 1, True), ('numpy.bool_(False)', npstub.NpBool(False), False), ('numpy.bool_(True)', npstub.NpBool(True), True)):
+    for sw_label, sw, logmode in ((('0', 0, False), ('1', 1, True), ('numpy.bool_(False)', npstub.NpBool(False), False), ('numpy.bool_(True)', npstub.NpBool(True), True)) if only is None else ()):
         for target in itertools.product(range(2), repeat=3):
             emis = [[0.1 if i == target[k] else 2.3 for i in range(2)] for k in range(3)]
             trans = [{(i, j): (0.1 if (i, j) == (target[k], target[k + 1]) else 2.3) for i in range(2) for j in range(2)} for k in range(2)]
@@ -746,16 +747,18 @@ def rule_V(ctx):
                           ('MODE_OBS_AS_2D_POSITIONS', ['x', 'y', 'a', 'b']), ('MODE_OBS_AS_3D_POSITIONS', ['x', 'y', 'z']), ('MODE_OBS_AS_3D_POSITIONS', ['x', 'y', 'z', 'a']),
                           ('MODE_OBS_AS_3D_POSITIONS', ['x', 'y', 'z', 'a', 'b']), ('MODE_OBS_AND_STATES_AS_2D_POSITIONS', ['x', 'y', 'a']), ('MODE_OBS_AND_STATES_AS_3D_POSITIONS', ['x', 'y', 'z', 'a']),
                           ('MODE_STATES_AS_2D_POSITIONS', ['a', 'b', 'c']), ('MODE_STATES_AS_3D_POSITIONS', ['a', 'b', 'c', 'd'])):
+        if only is not None and mname != 'MODE_OBS_AND_STATES_AS_2D_POSITIONS':
+            continue
         for target in ((0, 1, 1), (1, 0, 1)):
             emis = [[0.1 if i == target[k] else 2.3 for i in range(2)] for k in range(3)]
             trans = [{(i, j): (0.1 if (i, j) == (target[k], target[k + 1]) else 2.3) for i in range(2) for j in range(2)} for k in range(2)]
             decode((2, 2, 2), emis, trans, False, 'unique optimum %r, observations %r in mode %s' % (list(target), names_, mname), 'observation modes', obsmode=(mname, names_))
     for (family, key), (desc, wit) in sorted(found.items()):
-        ctx.violation('C09.V', f, desc, wit, node=f.node, key='%s:%s' % (family, key))
-    for family in ('orderings', 'unique', 'zeros and ones', 'reuse', 'switch kinds', 'observation modes'):
+        ctx.violation(rid, f, desc, wit, node=f.node, key='%s:%s' % (family, key))
+    for family in (('orderings', 'unique', 'zeros and ones', 'reuse', 'switch kinds', 'observation modes') if only is None else only):
         if not any(f_ == family for f_, _ in found):
-            ctx.ok('C09.V', f, 'decoded sequence = an optimum of the enumeration, plain and log mode (%s)' % family, node=f.node)
-    ctx.extra['C09.V models'] = n_models[0]
+            ctx.ok(rid, f, 'decoded sequence = an optimum of the enumeration, plain and log mode (%s)' % family, node=f.node)
+    ctx.extra[rid + ' models'] = n_models[0]
 
 
 RULES = [
